@@ -21,15 +21,16 @@ trait Aggregator<'t, D: Doc> {
   ) -> Option<()>;
 }
 
-struct ComputeEnd(usize);
+// None until a pattern node is aligned with a candidate node
+struct ComputeEnd(Option<usize>);
 
 impl<'t, D: Doc> Aggregator<'t, D> for ComputeEnd {
   fn match_terminal(&mut self, node: &Node<'t, D>) -> Option<()> {
-    self.0 = node.range().end;
+    self.0 = Some(node.range().end);
     Some(())
   }
   fn match_meta_var(&mut self, _: &MetaVariable, node: &Node<'t, D>) -> Option<()> {
-    self.0 = node.range().end;
+    self.0 = Some(node.range().end);
     Some(())
   }
   fn match_ellipsis(
@@ -39,7 +40,7 @@ impl<'t, D: Doc> Aggregator<'t, D> for ComputeEnd {
     _skipped: usize,
   ) -> Option<()> {
     let n = nodes.last()?;
-    self.0 = n.range().end;
+    self.0 = Some(n.range().end);
     Some(())
   }
 }
@@ -48,9 +49,10 @@ pub fn match_end_non_recursive<D: Doc>(
   goal: &Pattern<D::Lang>,
   candidate: Node<D>,
 ) -> Option<usize> {
-  let mut end = ComputeEnd(0);
+  let mut end = ComputeEnd(None);
   match match_node_impl(&goal.node, &candidate, &mut end, &goal.strictness) {
-    MatchOneNode::MatchedBoth => Some(end.0),
+    // no end is known when every pattern node was skipped, e.g. `private final` under `ast`
+    MatchOneNode::MatchedBoth => end.0,
     _ => None,
   }
 }
